@@ -31,6 +31,10 @@ type stressPlugin struct {
 	acceptGate    int32
 	acceptSeen    chan struct{}
 	acceptRelease chan struct{}
+	// closedDelay (ns): when set, the OnClosed hook sleeps that long (probe stop-waits-teardown: a slow
+	// tear-down); closedBegin/closedEnd count the OnClosed calls begun / returned; pendingAtStop is the
+	// number of OnClosed calls still running when OnStop fired
+	closedDelay, closedBegin, closedEnd, pendingAtStop int64
 }
 
 func (p *stressPlugin) Load(server.Server) error { atomic.AddInt64(&p.load, 1); return nil }
@@ -39,7 +43,11 @@ func (p *stressPlugin) Name() string             { return "verifstress" }
 func (p *stressPlugin) HookWrapper() server.HookWrapper {
 	return server.HookWrapper{
 		OnStopWrapper: func(pre server.OnStop) server.OnStop {
-			return func(ctx context.Context) { atomic.AddInt64(&p.onStop, 1); pre(ctx) }
+			return func(ctx context.Context) {
+				atomic.AddInt64(&p.onStop, 1)
+				atomic.StoreInt64(&p.pendingAtStop, atomic.LoadInt64(&p.closedBegin)-atomic.LoadInt64(&p.closedEnd))
+				pre(ctx)
+			}
 		},
 		OnAcceptWrapper: func(pre server.OnAccept) server.OnAccept {
 			return func(ctx context.Context, conn net.Conn) bool {
@@ -54,7 +62,15 @@ func (p *stressPlugin) HookWrapper() server.HookWrapper {
 			return func(ctx context.Context, c server.Client) { atomic.AddInt64(&p.connected, 1); pre(ctx, c) }
 		},
 		OnClosedWrapper: func(pre server.OnClosed) server.OnClosed {
-			return func(ctx context.Context, c server.Client, err error) { atomic.AddInt64(&p.closed, 1); pre(ctx, c, err) }
+			return func(ctx context.Context, c server.Client, err error) {
+				atomic.AddInt64(&p.closed, 1)
+				atomic.AddInt64(&p.closedBegin, 1)
+				if d := atomic.LoadInt64(&p.closedDelay); d > 0 {
+					time.Sleep(time.Duration(d))
+				}
+				pre(ctx, c, err)
+				atomic.AddInt64(&p.closedEnd, 1)
+			}
 		},
 	}
 }
